@@ -499,6 +499,7 @@ def replay(ctx, data):
                 pass
         c = C()
         dwt_shapes_check(c, ss, [(inp["w"], inp["h"])])
+        print("property violated on this input:", bool(c.violations))
         return 1 if c.violations else 0
     t = tuple(int(v) for v in inp["state"])
     import random
